@@ -32,9 +32,17 @@ structure Ideal where
   host : Host := .notReached
   normal : Nat := 0
   exc : List Nat
+  /-- per boundary event, why an event delivered to it had to be ignored (the strongest reason so far):
+      0 none, 1 the host was not yet reached, 2 the host had completed, 3 the host had been interrupted -/
+  ign : List Nat
 deriving DecidableEq, Repr
 
-def Ideal.init (kinds : List Bool) : Ideal := { kinds, exc := kinds.map (fun _ => 0) }
+def Ideal.init (kinds : List Bool) : Ideal := { kinds, exc := kinds.map (fun _ => 0), ign := kinds.map (fun _ => 0) }
+
+def raise (xs : List Nat) (i v : Nat) : List Nat :=
+  match xs[i]? with
+  | some n => xs.set i (max n v)
+  | none => xs
 
 def bump (xs : List Nat) (i : Nat) : List Nat :=
   match xs[i]? with
@@ -53,7 +61,9 @@ def Ideal.step (s : Ideal) : Act → Ideal
       | some true => { s with exc := bump s.exc i, host := .interrupted }
       | some false => { s with exc := bump s.exc i }
       | none => s
-    | _ => s
+    | .notReached => { s with ign := raise s.ign i 1 }
+    | .completed => { s with ign := raise s.ign i 2 }
+    | .interrupted => { s with ign := raise s.ign i 3 }
   | .answer =>
     match s.host with
     | .waiting => { s with normal := s.normal + 1, host := .completed }
